@@ -536,9 +536,10 @@ func checkMarkers(r *Report, p *Prog, markers []*markerInfo, rule string) {
 }
 
 func checkSessionGates(r *Report, p *Prog, rule string) {
-	// RequireAccount: closures in samlsp that invoke http.Handler.ServeHTTP
+	// RequireAccount: functions of samlsp (the closures the wrappers return, or the methods they delegate to) that invoke
+	// http.Handler.ServeHTTP on a handler they were handed
 	for _, fn := range p.modFns {
-		if !p.InLibrary(fn) || fn.Parent() == nil {
+		if !p.InLibrary(fn) {
 			continue
 		}
 		top := fn
@@ -560,6 +561,22 @@ func checkSessionGates(r *Report, p *Prog, rule string) {
 			for _, in := range b.Instrs {
 				c, ok := in.(*ssa.Call)
 				if !ok || !c.Call.IsInvoke() || c.Call.Method.Name() != "ServeHTTP" {
+					continue
+				}
+				// (a handler the function was handed: a parameter or a captured variable, not one it makes itself such as
+				// http.NotFoundHandler())
+				hv := Resolve(c.Call.Value)
+				if cv := capturedValue(hv); cv != nil {
+					hv = cv
+				}
+				switch hv.(type) {
+				case *ssa.Parameter, *ssa.FreeVar:
+				default:
+					if ld, isLd := hv.(*ssa.UnOp); isLd {
+						if _, isFV := ld.X.(*ssa.FreeVar); isFV {
+							break
+						}
+					}
 					continue
 				}
 				r.Fn(p.FnName(fn))
@@ -668,6 +685,7 @@ func ruleC17(r *Report) {
 		return cs != nil && strings.Contains(cs.Obj().Name(), "TrackedRequest")
 	})
 	checkTracker(r, p, "C17.tracker")
+	safely(r, func() { checkTrackIndex(r, p, "C17.tracker") })
 	checkConfigReadOnly(r, p, "C17.tracker", "samlsp", "JWTTrackedRequestCodec", "CookieRequestTracker", "Middleware")
 	checkStopTracking(r, p, "C17.tracker")
 	checkRedirect(r, p, "C17.redirect", "C17.order")
@@ -1589,4 +1607,71 @@ func trackedLookupCall(v ssa.Value) *ssa.Call {
 		}
 	}
 	return nil
+}
+
+// checkTrackIndex: every flow is tracked under an index of its own: each value the Index of the tracked request can take
+// in TrackRequest (with its helpers) is the text of fresh random bytes (at least 16) or a value used only under "it is
+// not empty" (a custom relay state replaces the random index only when there is one). An empty index names every such
+// flow's cookie alike (prefix + "") and sends no RelayState, so the flows overwrite each other and complete at the
+// default URL.
+func checkTrackIndex(r *Report, p *Prog, rule string) {
+	tr := p.MustFunc("samlsp", "CookieRequestTracker", "TrackRequest")
+	a := NewAnalysis(p)
+	B := a.B
+	rg := NewRegion(p, tr, 2)
+	n := 0
+	for _, c := range rg.all {
+		cfc := rg.Ctx(a, c)
+		cfc.ensureConds()
+		for _, st := range litFields(c.fn, modPath+"/samlsp", "TrackedRequest")["Index"] {
+			r.Fn(p.FnName(c.fn))
+			for _, o := range rg.Origins(RV{V: st.Val, C: c}) {
+				n++
+				ofc := rg.Ctx(a, o.C)
+				ap := ofc.AP(o.V)
+				cons := fmt.Sprintf("%s: tracked index %s is never empty", p.FnName(tr), ap)
+				ok := false
+				why := ""
+				if call, isCall := o.V.(*ssa.Call); isCall && call.Call.StaticCallee() != nil && strings.HasSuffix(call.Call.StaticCallee().String(), "EncodeToString") {
+					// the text of a byte string of known, non-zero length (that the bytes are random is C12.ids / C17.cookie-flags)
+					for _, arg := range call.Call.Args {
+						k := int64(0)
+						switch x := arg.(type) {
+						case *ssa.Call:
+							if x.Call.StaticCallee() != nil && p.InLibrary(x.Call.StaticCallee()) && len(x.Call.Args) > 0 {
+								k, _ = constInt(x.Call.Args[len(x.Call.Args)-1])
+							}
+						case *ssa.Slice:
+							if at, isArr := derefType(x.X.Type()).Underlying().(*types.Array); isArr && x.Low == nil {
+								k = at.Len()
+								if x.High != nil {
+									k, _ = constInt(x.High)
+								}
+							}
+						case *ssa.MakeSlice:
+							k, _ = constInt(x.Len)
+						}
+						if k >= 16 {
+							ok, why = true, fmt.Sprintf("text of %d bytes", k)
+						}
+					}
+				}
+				if !ok {
+					cnd := cfc.AbsCond(st.Block())
+					for _, vb := range o.Via {
+						vfc := rg.Ctx(a, vb.C)
+						vfc.ensureConds()
+						cnd = B.And(cnd, vfc.AbsCond(vb.B))
+					}
+					if nm := "empty(" + ap + ")"; B.HasVar(nm) && B.Implies(cnd, B.Not(B.Var(nm))) {
+						ok, why = true, "used only when it is not empty"
+					}
+				}
+				r.Check(ok, rule, cons, p.InstrPos(st), why, "the index can be the empty string (a relay state function that declines a request): the tracking cookie is then named by the prefix alone, no RelayState is sent, and concurrent flows share one cookie")
+			}
+		}
+	}
+	if n == 0 {
+		r.Undecided(rule, p.FnName(tr)+": index of the tracked request", p.Pos(tr.Pos()), "no store to TrackedRequest.Index found")
+	}
 }
